@@ -91,6 +91,18 @@ func (s *genState) term() *Expr {
 		}
 		if s.pct(12, "ci") {
 			e.CI = true
+			if s.pct(60, "ciletter") {
+				// any letter of the alphabet, in either case: case folding has special cases
+				// (k and the Kelvin sign, s and the long s, i and the dotless i)
+				l := rune('a' + rapid.IntRange(0, 25).Draw(t, "cil"))
+				if rapid.Bool().Draw(t, "ciup") {
+					l -= 32
+				}
+				if s.pct(40, "ciks") {
+					l = rapid.SampledFrom([]rune{'k', 's', 'i', 'K', 'S', 'I'}).Draw(t, "ciksl")
+				}
+				e.Runes[rapid.IntRange(0, len(e.Runes)-1).Draw(t, "cipos")] = l
+			}
 		}
 		return e
 	case k < 64:
@@ -110,7 +122,11 @@ func (s *genState) term() *Expr {
 		for i := 0; i < n; i++ {
 			if s.p.MaxRune && s.pct(15, "edgerange") {
 				// ranges that touch the ends of the code space
-				if rapid.Bool().Draw(t, "edgehi") {
+				if s.pct(30, "edgegap") {
+					// a range across the surrogate gap: D800-DFFF are no characters, whoever
+					// enumerates the members has to step over them and land on E000
+					e.Items = append(e.Items, Item{0xD7FF - rune(rapid.IntRange(0, 1).Draw(t, "eg0")), 0xE000 + rune(rapid.IntRange(0, 1).Draw(t, "eg1"))})
+				} else if rapid.Bool().Draw(t, "edgehi") {
 					e.Items = append(e.Items, Item{0x10FFFF - rune(rapid.IntRange(0, 3).Draw(t, "ew")), 0x10FFFF})
 				} else {
 					e.Items = append(e.Items, Item{0, rune(rapid.IntRange(0, 3).Draw(t, "ew0"))})
@@ -127,6 +143,10 @@ func (s *genState) term() *Expr {
 		if s.pct(10, "ci") {
 			e.CI = true
 			// keep the documented shape: ranges with letter bounds of one case only
+			if s.pct(50, "ciclsletter") {
+				l := rapid.SampledFrom([]rune{'k', 's', 'i', 'K', 'S', 'I', 'z', 'Q'}).Draw(t, "ciclsl")
+				e.Items = append(e.Items, Item{l, l})
+			}
 		}
 		if !ClassSafe(e.Items) {
 			e.Items = e.Items[:1]
@@ -438,10 +458,15 @@ func (s *genState) dispatch(i, depth int, must, guarded bool) *Expr {
 		}
 		return &Expr{K: KLit, Runes: []rune{r}}
 	}
+	gapLead := false
 	for j := 0; j < n; j++ {
 		lead := &Expr{K: KLit, Runes: []rune{perm[j]}}
 		alt := &Expr{K: KSeq}
-		switch k := rapid.IntRange(0, 20).Draw(t, "dprefix"); {
+		switch k := rapid.IntRange(0, 23).Draw(t, "dprefix"); {
+		case k >= 21 && s.p.MaxRune:
+			// the leading element is a range across the surrogate gap
+			lead = &Expr{K: KClass, Items: []Item{{0xD7FF, 0xE000 + rune(rapid.IntRange(0, 1).Draw(t, "dgap"))}}}
+			gapLead = true
 		case k == 17:
 			// a class that names a member twice ([aa], [a-cb], [ba-c]): the number of members
 			// written is not the number of characters it stands for
@@ -452,7 +477,7 @@ func (s *genState) dispatch(i, depth int, must, guarded bool) *Expr {
 				items[0], items[1] = items[1], items[0]
 			}
 			lead = &Expr{K: KClass, Items: items}
-		case k >= 18:
+		case k >= 18 && k <= 20:
 			// such a class at the head of a nested choice whose sibling starts with another
 			// leading character: ([a-cb] 'x' / 'd' 'y') 'z'
 			// (the sibling's character is one no other alternative of the choice starts with,
@@ -560,6 +585,11 @@ func (s *genState) dispatch(i, depth int, must, guarded bool) *Expr {
 		}
 		e.Kids = append(e.Kids, alt)
 	}
+	if gapLead {
+		// an even larger sibling takes the default arm, so that the range across the gap gets
+		// case labels of its own
+		e.Kids = append(e.Kids, Seq(&Expr{K: KClass, Items: []Item{{0x2000, 0xCFFF}}}))
+	}
 	if s.pct(35, "dwide") {
 		// a sibling with a large first-character set: it becomes the default arm of the
 		// switch, so that the other alternatives (whatever their size) get case labels
@@ -629,6 +659,28 @@ func (s *genState) refHeavy(i int) *Expr {
 // has to restore position and tokens exactly.
 func (s *genState) memoSplice(g *Grammar) {
 	t := s.t
+	if rapid.IntRange(0, 3).Draw(t, "msfail") == 0 {
+		// the failing counterpart:  F t1 / F t2 / K t3 / (old body)  with  F <- K '=' K  and
+		// K <- <x+> {action}: the same rule is tried twice at the same offset and fails both
+		// times after its sub-rule has captured and (without AST) run its action - a result
+		// that may be remembered, an effect that must be repeated
+		x := rapid.SampledFrom(baseAlpha).Draw(t, "mfx")
+		base := len(g.Rules)
+		k, f := base, base+1
+		kbody := Seq(Un(KCap, Un(KPlus, &Expr{K: KLit, Runes: []rune{x}})), &Expr{K: KAct})
+		fbody := Seq(Ref(k), &Expr{K: KLit, Runes: []rune{'='}}, Ref(k))
+		if rapid.Bool().Draw(t, "mfinner") {
+			fbody = Seq(Ref(k), &Expr{K: KAct}, &Expr{K: KLit, Runes: []rune{'='}}, Ref(k))
+		}
+		g.Rules = append(g.Rules, &Rule{Name: fmt.Sprintf("R%d", k), Body: kbody}, &Rule{Name: fmt.Sprintf("R%d", f), Body: fbody})
+		lit := func(r rune) *Expr { return &Expr{K: KLit, Runes: []rune{r}} }
+		g.Rules[0].Body = &Expr{K: KAlt, Kids: []*Expr{Seq(Ref(f), lit('1')), Seq(Ref(f), lit('2')), Seq(Ref(k), lit('3')), g.Rules[0].Body}}
+		s.n = len(g.Rules)
+		s.ruleMust = append(s.ruleMust, true, true)
+		s.known = append(s.known, true, true)
+		s.rules = g.Rules
+		return
+	}
 	x := rapid.SampledFrom(baseAlpha).Draw(t, "msx")
 	lx := func() *Expr { return &Expr{K: KLit, Runes: []rune{x}} }
 	base := len(g.Rules)
@@ -1032,7 +1084,7 @@ func (c RapidChooser) Intn(n int) int {
 	return rapid.IntRange(0, n-1).Draw(c.T, "c")
 }
 
-var sampleAlpha = append(append([]rune{}, baseAlpha...), 'é', '世', '😀', '\n', 'A', 'z', '\'', 0)
+var sampleAlpha = append(append([]rune{}, baseAlpha...), 'é', '世', '😀', '\n', 'A', 'z', '\'', 0, 'k', 'K', 's', 'S', 0x212A, 0x17F, 0x131, 0x130)
 
 // Sample walks the grammar from rule entry emitting runes of one (almost) matching string.
 func Sample(g *Grammar, entry int, c Chooser, maxLen int) []rune {
@@ -1065,7 +1117,14 @@ func SamplePumped(g *Grammar, entry int, c Chooser, maxLen, loopMax int) []rune 
 				// the empty class matches nothing
 			} else if !e.Neg {
 				it := e.Items[c.Intn(len(e.Items))]
-				out = append(out, it.Lo+rune(c.Intn(int(it.Hi-it.Lo)+1)))
+				r := it.Lo + rune(c.Intn(int(it.Hi-it.Lo)+1))
+				if r >= 0xD800 && r <= 0xDFFF {
+					r = it.Hi // no character: take the bound behind the gap
+					if c.Intn(2) == 0 {
+						r = 0xE000
+					}
+				}
+				out = append(out, r)
 			} else {
 				for tries := 0; tries < 8; tries++ {
 					r := sampleAlpha[c.Intn(len(sampleAlpha))]
